@@ -454,6 +454,8 @@ class Interp(Engine):
         if isinstance(fn, Obj):
             m = self.getattr_(fn, "__call__")
             return self.call(m, args, kwargs, node, fr)
+        if isinstance(fn, Opaque) and "__call__" in fn.proto:
+            return fn.proto["__call__"](self, fn, args, kwargs)
         m = self.models.lookup_model(fn)
         if m is not None:
             return m(self, args, kwargs)
